@@ -261,6 +261,10 @@ def replay(ctx, rep):
         from harness import bnafld
 
         return bnafld.replay_case(ctx, rep)
+    if "layer" in c:   # a real MaskedAutoregressive / Coupling layer case of harness/autoreg.py
+        from harness import autoreg
+
+        return autoreg.replay_case(ctx, rep)
     if "spec" not in c:
         print("flow-level replay: re-run ./check C02 (seeded)")
         return False
